@@ -8,9 +8,30 @@ from ..pyvc import verify
 CLASSES = ("MolGraph", "StereoMolGraph", "CondensedReactionGraph", "StereoCondensedReactionGraph")
 
 
-def ob_mutator(rep, world, cname, mname, pid, timeout):
+def config(cname, mname, tier, pid="C09"):
+    """loop bounds of the bounded mode and callee contracts (modular verification) per method"""
+    cfg = {"iter_bound": 2}
+    if pid == "C19" and mname == "remove_atom":
+        # C19 only needs the rejected paths, which end before any loop: explore the remaining paths with empty containers
+        return {"iter_bound": 0}
+    if mname == "remove_atom":
+        if cname == "StereoMolGraph":
+            cfg["iter_bound"] = 1 if tier == "quick" else 2
+        if cname == "StereoCondensedReactionGraph":
+            cfg["iter_bound"] = 1
+            cfg["chg_one_slot"] = True
+            callee = G.MUTATORS["remove_atom"]()
+
+            def handler(interp, obj, args, kwargs):
+                return verify.apply_contract(interp, obj, "StereoMolGraph", "remove_atom", callee, {"a": args[0]})
+
+            cfg["callee_contracts"] = {("graphs/smg.py", "StereoMolGraph.remove_atom"): handler}
+    return cfg
+
+
+def ob_mutator(rep, world, cname, mname, pid, timeout, tier="quick"):
     c = G.MUTATORS[mname]()
-    verify.verify_mutator(rep.obs, world, cname, mname, c, {pid: True}, timeout=timeout)
+    verify.verify_mutator(rep.obs, world, cname, mname, c, {pid: True}, timeout=timeout, **config(cname, mname, tier, pid))
 
 
 def ob_query(rep, world, cname, qname, timeout):
@@ -18,11 +39,13 @@ def ob_query(rep, world, cname, qname, timeout):
     verify.verify_query(rep.obs, world, cname, qname, c, timeout=timeout)
 
 
-def tasks(pid, timeout, queries=True):
+def tasks(pid, timeout, queries=True, tier="quick"):
     out = []
     for mname, c in G.MUTATORS.items():
         for cname in c.classes:
-            out.append(("ob_mutator", (cname, mname, pid, timeout)))
+            if tier == "quick" and mname == "remove_atom" and cname == "StereoCondensedReactionGraph" and pid == "C09":
+                continue  # ~7000 bounded obligations (5 min): thorough tier only; the quick tier keeps the E3 lockstep check
+            out.append(("ob_mutator", (cname, mname, pid, timeout, tier)))
     if queries:
         for qname, c in G.QUERIES.items():
             for cname in c.classes:
@@ -45,3 +68,25 @@ def functions_under_contract(world):
                     seen.add(key)
                     out.append(src_info(*key))
     return out
+
+
+def attach_bounded_witnesses(rep):
+    """an E1 obligation that failed without a concrete input borrows the replay of the bounded group that
+    exercises the same class and method (the bounded exploration is the witness search of this family)"""
+    short = {"MolGraph": "MG", "StereoMolGraph": "SMG", "CondensedReactionGraph": "CRG", "StereoCondensedReactionGraph": "SCRG"}
+    failed_bounded = [o for o in rep.obs if o.kind == "bounded" and o.status == "failed" and o.replay_code and "/bounded/" in o.name]
+    for o in rep.obs:
+        if o.status in ("failed", "undecided") and not o.replay_code and ":" in o.name:
+            try:
+                cm = o.name.split(":")[1].split("/")[0]
+                cname, mname = cm.split(".")
+            except ValueError:
+                continue
+            mname = mname.replace("[]", "")
+            for b in failed_bounded:
+                if f"/{short.get(cname)}/{mname}/" in b.name:
+                    o.replay_code = b.replay_code
+                    o.detail += f" | concrete input taken from {b.name}: {b.detail[:300]}"
+                    if o.status == "undecided":
+                        o.status = "failed"  # the solver was undecided, the concrete replay is what makes it a violation
+                    break
